@@ -144,6 +144,21 @@ func (cx *Ctx) VerifyFunc(fn *ssa.Function, spec *FnSpec) (fx *FnExec) {
 	if spec != nil {
 		fx.PinLen, fx.Tag = spec.PinLen, spec.Tag
 	}
+	// package-level variables that non-initialiser code writes to hold an arbitrary value at entry
+	for _, g := range cx.MutableGlobals() {
+		func() {
+			defer func() {
+				if r := recover(); r != nil {
+					if _, ok := r.(Unsupported); !ok {
+						panic(r)
+					}
+				}
+			}()
+			o := cx.globalObj(g)
+			st.Heap[o] = fx.SymValue(st, g.Type().(*types.Pointer).Elem(), "global."+g.Name(), 0)
+			cx.Note("package-level variable " + g.String() + " is written outside package initialisation: its value at function entry is unconstrained")
+		}()
+	}
 	if spec != nil && spec.Args != nil {
 		args = spec.Args(fx, st)
 	} else {
